@@ -218,15 +218,15 @@ func (o *FilterOptimizer) optimizeBetweenExpr(e *BinaryOpExpr) *ScanType {
 	return &ScanType{FULL, nil}
 }
 
-func (o *FilterOptimizer) optimizeGtGteExpr(e *BinaryOpExpr) *ScanType {
-	var (
-		field KVKeyword = ValueKW
-		key   []byte    = nil
-	)
-
+// keyAndLiteral extracts the operands of a comparison between a field and a
+// string literal. literalOnLeft tells that the comparison is written as
+// `'literal' op field`, so the operator direction is reversed for the field.
+func keyAndLiteral(e *BinaryOpExpr) (field KVKeyword, key []byte, literalOnLeft bool) {
+	field = ValueKW
 	switch left := e.Left.(type) {
 	case *StringExpr:
 		key = []byte(left.Data)
+		literalOnLeft = true
 	case *FieldExpr:
 		field = left.Field
 	}
@@ -237,7 +237,10 @@ func (o *FilterOptimizer) optimizeGtGteExpr(e *BinaryOpExpr) *ScanType {
 	case *FieldExpr:
 		field = right.Field
 	}
+	return field, key, literalOnLeft
+}
 
+func (o *FilterOptimizer) lowerBoundScan(field KVKeyword, key []byte) *ScanType {
 	// Is Key start vale and value can calculate in query,
 	// return RANGE scan with start
 	if field == KeyKW && key != nil {
@@ -252,26 +255,7 @@ func (o *FilterOptimizer) optimizeGtGteExpr(e *BinaryOpExpr) *ScanType {
 	return &ScanType{FULL, nil}
 }
 
-func (o *FilterOptimizer) optimizeLtLteExpr(e *BinaryOpExpr) *ScanType {
-	var (
-		field KVKeyword = ValueKW
-		key   []byte    = nil
-	)
-
-	switch left := e.Left.(type) {
-	case *StringExpr:
-		key = []byte(left.Data)
-	case *FieldExpr:
-		field = left.Field
-	}
-
-	switch right := e.Right.(type) {
-	case *StringExpr:
-		key = []byte(right.Data)
-	case *FieldExpr:
-		field = right.Field
-	}
-
+func (o *FilterOptimizer) upperBoundScan(field KVKeyword, key []byte) *ScanType {
 	// Is Key start vale and value can calculate in query,
 	// return RANGE scan with end
 	if field == KeyKW && key != nil {
@@ -286,29 +270,31 @@ func (o *FilterOptimizer) optimizeLtLteExpr(e *BinaryOpExpr) *ScanType {
 	return &ScanType{FULL, nil}
 }
 
+func (o *FilterOptimizer) optimizeGtGteExpr(e *BinaryOpExpr) *ScanType {
+	field, key, literalOnLeft := keyAndLiteral(e)
+	if literalOnLeft {
+		// 'x' > key means key < 'x'
+		return o.upperBoundScan(field, key)
+	}
+	return o.lowerBoundScan(field, key)
+}
+
+func (o *FilterOptimizer) optimizeLtLteExpr(e *BinaryOpExpr) *ScanType {
+	field, key, literalOnLeft := keyAndLiteral(e)
+	if literalOnLeft {
+		// 'x' < key means key > 'x'
+		return o.lowerBoundScan(field, key)
+	}
+	return o.upperBoundScan(field, key)
+}
+
 func (o *FilterOptimizer) optimizePrefixMatchExpr(e *BinaryOpExpr) *ScanType {
-	var (
-		field KVKeyword = ValueKW
-		key   []byte    = nil
-	)
-
-	switch left := e.Left.(type) {
-	case *StringExpr:
-		key = []byte(left.Data)
-	case *FieldExpr:
-		field = left.Field
-	}
-
-	switch right := e.Right.(type) {
-	case *StringExpr:
-		key = []byte(right.Data)
-	case *FieldExpr:
-		field = right.Field
-	}
+	field, key, literalOnLeft := keyAndLiteral(e)
 
 	// Is Key prefix scan value and value can calculate in query,
-	// return PREFIX scan
-	if field == KeyKW && key != nil {
+	// return PREFIX scan. `'x' ^= key` asks for the keys that are a prefix
+	// of 'x', which is not a prefix scan
+	if field == KeyKW && key != nil && !literalOnLeft {
 		return &ScanType{PREFIX, [][]byte{key}}
 	}
 	// If not just return FULL scan
